@@ -383,6 +383,8 @@ where
         let mut guard = file.lock_write().await.map_err(|e| e.error)?;
         guard.write_all(&buffer).await?;
         guard.flush().await?;
+        // A shorter vault must not keep the tail of the old file
+        guard.inner_mut().set_len(buffer.len() as u64).await?;
 
         Ok(())
     }
